@@ -25,7 +25,7 @@ macro_rules! st {
         impl CustomState<'_> for $n {}
     )*};
 }
-st!(Sent, Cnt, Mk0, Mk1, Extra);
+st!(Sent, Cnt, Mk0, Mk1, Extra, Lz);
 
 #[derive(Clone, Copy, Debug, PartialEq, Eq, PartialOrd, Ord, Hash)]
 enum K {
@@ -34,6 +34,7 @@ enum K {
     Mk0,
     Mk1,
     Iter,
+    Lz,
 }
 
 #[derive(Clone, Copy, Debug, PartialEq, Eq, PartialOrd, Ord, Hash, Serialize)]
@@ -52,8 +53,11 @@ enum LeafKind {
     Shadow,   // init: insert Sent(1000 + id) into the current scope
     Create1,
     Require1,
+    /// execute: state created lazily through the entry API (`entry::<Lz>().or_default()`), then counted up: it is
+    /// created in the scope the leaf runs in - and gone with it - unless an enclosing scope already holds it
+    Lazy,
 }
-const KINDS: [LeafKind; 7] = [LeafKind::Plain, LeafKind::Create0, LeafKind::Require0, LeafKind::Bump, LeafKind::Shadow, LeafKind::Create1, LeafKind::Require1];
+const KINDS: [LeafKind; 8] = [LeafKind::Plain, LeafKind::Create0, LeafKind::Require0, LeafKind::Bump, LeafKind::Shadow, LeafKind::Create1, LeafKind::Require1, LeafKind::Lazy];
 
 type Ev = (Phase, u32);
 
@@ -137,6 +141,9 @@ impl Component<TagP> for Probe {
             } else {
                 *state.try_borrow_value_mut::<Cnt>()? += 1;
             }
+        }
+        if self.kind == LeafKind::Lazy {
+            state.entry::<Lz>().or_default().0 += 1;
         }
         Ok(())
     }
@@ -517,6 +524,12 @@ impl<'a> Interp<'a> {
                     if *kind == LeafKind::Bump {
                         *self.innermost(K::Cnt).expect("caller provides Cnt") += 1;
                     }
+                    if *kind == LeafKind::Lazy {
+                        match self.innermost(K::Lz) {
+                            Some(v) => *v += 1,
+                            None => drop(self.top().insert(K::Lz, 1)),
+                        }
+                    }
                 }
                 Node::While { id, cond, mode, body } => {
                     // re-initialise the condition on entry
@@ -719,6 +732,10 @@ fn run_case(p: &Prepared, scripts: &[Vec<bool>], fault: Option<Fault>, use_dsl: 
     let got_extra = state.try_get_value::<Extra>().ok();
     let got_m0 = state.try_get_value::<Mk0>().ok();
     let got_m1 = state.try_get_value::<Mk1>().ok();
+    let got_lz = state.try_get_value::<Lz>().ok();
+    if got_lz != m.get(&K::Lz).copied() {
+        return Some((format!("state:{failed}:lazily-created-state-wrong"), format!("({how}) state created through the entry API by leaves: caller sees {got_lz:?}, reference {:?} (created inside a scope it must be gone, created outside it must persist and count every execution)", m.get(&K::Lz))));
+    }
     if got_sent != m.get(&K::Sent).copied() || got_extra != Some(5) {
         return Some((format!("state:{failed}:caller-state-lost-or-changed"), format!("({how}) sentinel {got_sent:?} (reference {:?}), extra {got_extra:?} (reference Some(5))", m.get(&K::Sent))));
     }
@@ -870,7 +887,7 @@ fn random_shape(rng: &mut SplitMix64, budget: &mut usize, depth: usize) -> Vec<I
 
 fn main() {
     let rep = Reporter::from_args("C03");
-    rep.rule("configurations over {probe leaf (7 kinds: plain, create marker in init, require marker, bump outer counter - through try_borrow_value_mut or through the entry API, shadow the caller's sentinel), sequence, while, if, if/else, scope; the scripted condition of a node plain or wrapped as !!c, c & traced-true-operand, c | traced-false-operand (constructors and operators), every operand traced and fault-injectable: all operands initialised, required and evaluated on every test, no short-circuit} built with the builder DSL and with Block/Loop/Branch/Scope::new, run with Configuration::run on a caller state holding sentinels; scripted condition outcomes (all sequences up to length 3 per condition) and every single fault point (node x phase x 1st/2nd call); the recorded (phase,node) trace, the returned result and the caller's final state are compared with a reference interpreter written from the statement. Exhaustive over all trees up to the stated node count; plus seeded random trees up to 40 nodes, depth <= 7. distinct_nontrivial = distinct (tree, scripts, fault) cases that failed, entered a scope, or had a zero-iteration loop");
+    rep.rule("configurations over {probe leaf (8 kinds: state created lazily through the entry API in execute, plain, create marker in init, require marker, bump outer counter - through try_borrow_value_mut or through the entry API, shadow the caller's sentinel), sequence, while, if, if/else, scope; the scripted condition of a node plain or wrapped as !!c, c & traced-true-operand, c | traced-false-operand (constructors and operators), every operand traced and fault-injectable: all operands initialised, required and evaluated on every test, no short-circuit} built with the builder DSL and with Block/Loop/Branch/Scope::new, run with Configuration::run on a caller state holding sentinels; scripted condition outcomes (all sequences up to length 3 per condition) and every single fault point (node x phase x 1st/2nd call); the recorded (phase,node) trace, the returned result and the caller's final state are compared with a reference interpreter written from the statement. Exhaustive over all trees up to the stated node count; plus seeded random trees up to 40 nodes, depth <= 7. distinct_nontrivial = distinct (tree, scripts, fault) cases that failed, entered a scope, or had a zero-iteration loop");
     rep.assume("Script conditions keep their position harness-side and reset it in init(); Iterations is only compared when no scope level holds two loops");
     let max_nodes = rep.tier.pick(3usize, 4usize);
     rep.set("exhaustive_max_nodes", json!(max_nodes));
@@ -917,7 +934,7 @@ fn main() {
                 for _ in range {
                     let mut budget = 4 + rng.usize(37);
                     let shape = random_shape(&mut rng, &mut budget, 0);
-                    let kinds: Vec<LeafKind> = (0..7).map(|_| *rng.pick(&KINDS)).collect();
+                    let kinds: Vec<LeafKind> = (0..8).map(|_| *rng.pick(&KINDS)).collect();
                     let p = prepare(&shape, 0, Some(kinds));
                     let sets = script_sets_for(p.n_conds, all, &mut rng, 3);
                     // sample faults instead of all of them for big trees
